@@ -28,6 +28,8 @@ var (
 
 type run struct {
 	tr    *vh.Tracer
+	htr   *vh.Tracer // hook-level events of the ring (validated against Ring.tla by RingTrace.tla)
+	procs sync.Map   // goroutine id -> putter id
 	q     *rueidis.VerifQueue
 	rng   *rand.Rand
 	rngMu sync.Mutex
@@ -57,6 +59,13 @@ func (r *run) hook(point string, obj any, a, b int) {
 	if !r.q.Is(obj) {
 		return
 	}
+	if r.htr != nil && strings.HasPrefix(point, "ring.") {
+		p := 0
+		if v, ok := r.procs.Load(vh.GoID()); ok {
+			p = v.(int)
+		}
+		r.htr.Log(point, "p", p, "slot", a, "mark", b)
+	}
 	switch x := r.rnd(100); {
 	case x < 35:
 		runtime.Gosched()
@@ -77,9 +86,15 @@ func cellOf(tag string) int {
 
 const stopCell = 40
 
+var hookTraces [][]map[string]any
+
 func oneRun(rep *vh.Report, kind string, factor int, seed int64) []map[string]any {
 	r := &run{tr: &vh.Tracer{}, rng: rand.New(rand.NewSource(seed))}
 	r.q = rueidis.VerifNewQueue(kind, factor)
+	if kind == "ring" {
+		r.htr = &vh.Tracer{}
+		r.htr.Log("RESET", "p", 0, "slot", 0, "mark", 0)
+	}
 	rueidis.SetVerifHook(r.hook)
 	defer rueidis.SetVerifHook(nil)
 	sig := fmt.Sprintf("queue=%s slots=%d", kind, 2<<(factor-1))
@@ -151,6 +166,9 @@ func oneRun(rep *vh.Report, kind string, factor int, seed int64) []map[string]an
 			}
 			pend.Deliver(payload)
 			r.log("Deliver", 0, rc, 0, 0)
+			if r.htr != nil {
+				r.htr.Log("Deliver", "p", 0, "slot", 0, "mark", 0)
+			}
 			r.q.FinishResult()
 			r.log("Fin", 0, 0, 0, 0)
 			if c == stopCell {
@@ -201,6 +219,10 @@ func oneRun(rep *vh.Report, kind string, factor int, seed int64) []map[string]an
 					ctx, cancel = context.WithTimeout(ctx, time.Duration(prng.Intn(600))*time.Microsecond)
 				}
 				r.log("PutCall", p, c, 0, 0)
+				if r.htr != nil { // in the hook-level trace every put is its own process (an abandoned call lives on in its drainer)
+					r.procs.Store(vh.GoID(), c)
+					r.htr.Log("PutCall", "p", c, "slot", 0, "mark", 0)
+				}
 				var t rueidis.VerifTicket
 				var resps *rueidis.VerifResps
 				var err error
@@ -232,6 +254,10 @@ func oneRun(rep *vh.Report, kind string, factor int, seed int64) []map[string]an
 		wg.Wait()
 		// stop the writer the way pipe.go does at close: one more command that nobody waits for
 		r.log("PutCall", 0, stopCell, 0, 0)
+		if r.htr != nil {
+			r.procs.Store(vh.GoID(), stopCell)
+			r.htr.Log("PutCall", "p", stopCell, "slot", 0, "mark", 0)
+		}
 		t, _ := r.q.PutOne(context.Background(), fmt.Sprintf("c%d", stopCell))
 		r.log("PutRet", 0, stopCell, r.tokID(t), 0)
 		s := t.Recv()
@@ -254,6 +280,9 @@ func oneRun(rep *vh.Report, kind string, factor int, seed int64) []map[string]an
 	}
 	mu.Unlock()
 	r.log("END", 0, 0, 0, 0)
+	if r.htr != nil {
+		hookTraces = append(hookTraces, r.htr.Events())
+	}
 	return r.tr.Events()
 }
 
@@ -290,6 +319,13 @@ func main() {
 				}
 			}
 			rep.Traces += len(traces)
+			if *traceDir != "" && kind == "ring" {
+				if err := vh.WriteNDJSON(filepath.Join(*traceDir, fmt.Sprintf("ringhooks-%d.ndjson", 2<<(factor-1))), hookTraces); err != nil {
+					rep.Inconcl("write trace: %v", err)
+				}
+				rep.Traces += len(hookTraces)
+				hookTraces = nil
+			}
 			if *traceDir != "" {
 				if err := vh.WriteNDJSON(filepath.Join(*traceDir, fmt.Sprintf("queue-%s-%d.ndjson", kind, 2<<(factor-1))), traces); err != nil {
 					rep.Inconcl("write trace: %v", err)
